@@ -125,7 +125,7 @@ pub struct Scenario {
 pub const SERVICES: [&str; 4] = ["_srv._tcp.local", "_srvx._tcp.local", "x._srv._tcp.local", "_s._udp.local"];
 const INST_NAMES: [&str; 12] = ["a", "b", "ab", "a-b", "x", "srv1", "printer", "office", "officeprinter", "ba", "n0", "z9"];
 /// label alphabet chosen to collide under concatenation and prefixing
-const C13_LABELS: [&str; 14] = ["foo", "bar", "foobar", "_my", "_mysrv", "a", "b", "ab", "ba", "office", "printer", "officeprinter", "local", "_tcp"];
+const C13_LABELS: [&str; 16] = ["foo", "bar", "foobar", "_my", "_mysrv", "a", "b", "ab", "ba", "office", "printer", "officeprinter", "local", "_tcp", "a.b", "foo.bar"];
 pub const TTLS: [u32; 8] = [0, 1, 2, 59, 60, 120, 4500, u32::MAX];
 
 fn knobs(r: &mut Rng, profile: Profile, seed: u64) -> Knobs {
@@ -723,6 +723,14 @@ pub fn generate(seed: u64, focus: &str, profile: Profile) -> Scenario {
                     for rec in recs.iter_mut() {
                         rec.owner.insert(0, b"deep".to_vec());
                     }
+                }
+                if !recs.is_empty() && r.chance(1, 8) {
+                    // the same record twice in one message with another TTL / flush bit: the
+                    // later copy decides (sections are ingested in order)
+                    let mut d = recs[r.usize_below(recs.len())].clone();
+                    d.ttl = *r.pick(&TTLS);
+                    d.cache_flush = r.chance(1, 3);
+                    recs.push(d);
                 }
                 let split = if recs.len() > 1 && r.chance(1, 3) { r.usize_below(recs.len()) } else { recs.len() };
                 m.additional = recs.split_off(split);
